@@ -36,7 +36,8 @@ static trace::SpanContext any_valid_context() {
   uint8_t tid[16], sid[8];
   for (int i = 0; i < 16; i++) tid[i] = nondet_u8();
   for (int i = 0; i < 8; i++) sid[i] = nondet_u8();
-  trace::SpanContext sc(trace::TraceId(tid), trace::SpanId(sid), trace::TraceFlags(nondet_u8()), nondet_bool());
+  uint8_t fl = nondet_u8(); bool remote = nondet_bool();   // sequenced: argument evaluation order differs between clang and g++
+  trace::SpanContext sc(trace::TraceId(tid), trace::SpanId(sid), trace::TraceFlags(fl), remote);
   VASSUME(sc.IsValid());
   return sc;
 }
